@@ -3,7 +3,14 @@
 
 ID = "C13"
 HARNESSES = [dict(name="configmgr", pkg="./pkg/configmgr/", test="TestVerifC13", timeout=900,
+                  files=[("pkg/configmgr/zz_verif_c13_test.go", "harness/C13/zz_verif_c13_test.go")]),
+             # the concurrent scenarios run under the race detector
+             dict(name="configmgr_race", pkg="./pkg/configmgr/", test="TestVerifC13", timeout=900, race=True,
                   files=[("pkg/configmgr/zz_verif_c13_test.go", "harness/C13/zz_verif_c13_test.go")])]
+
+
+def route(case):
+    return "configmgr_race" if case.startswith("conc ") else "configmgr"
 VARIANTS = ["repaired", "frr_defect"]      # frr_defect = /repo HEAD until fixes/C13_frr_restore.patch is applied
 MODEL_NEEDS_IMPL = True     # only the concurrent cases use it (linearizability search in the driver)
 RULE = ("One case = one history against a fresh ConfigManager: a registry of 2-7 recording handlers on real path "
@@ -99,7 +106,7 @@ def plugin_value(rng, pat):
     if pat.endswith(".enabled"):
         return "b1"
     return rng.choice([hx("edited"), hx("x"), hx("orig"), hx("second")])
-FAULTS = ["0:R", "0:R", "0:rq1", "2:q1", "3:q2", "0:tq1", "0:sq2", "0:Rq2", "0:Rs"] + ["0:-"] * 10 + ["1:-", "2:-", "3:-", "4:-", "0:t", "0:r", "0:s", "0:v", "0:s", "0:v", "2:t", "0:tr", "0:sv",
+FAULTS = ["0:R", "0:R", "0:rq1", "2:q1", "3:q2", "0:tq1", "0:sq2", "0:Rq2", "0:Rs"] + ["0:-"] * 10 + ["1:-", "2:-", "3:-", "4:-", "5:-", "6:-", "0:t", "0:r", "0:s", "0:v", "0:s", "0:v", "2:t", "0:tr", "0:sv",
                          "0:rs", "3:s", "0:tv"]
 
 
@@ -507,6 +514,9 @@ def monitor(case, line, tolerate=None):
                 if rb != okap[::-1]:
                     return "step %d (%s): commit returned %s, applied %s but rolled back %s" % (i, " ".join(o), res, okap, rb)
             else:
+                if "deep" in head and head[head.index("deep") + 1] == "1":
+                    return ("step %d (%s): commit accepted a candidate whose subscriber groups claim the same "
+                            "(S-VLAN, C-VLAN) (ValidateMatchIndex, conf.go:280)" % (i, " ".join(o)))
                 if rb:
                     return "step %d: successful commit rolled back %s" % (i, rb)
                 if "R" in d:
